@@ -410,6 +410,17 @@ func (in *AnaInput) aggregate(vs []val.Val, mul val.Val) val.Val {
 			}
 		}
 		return val.Int(a)
+	case "UTAG":
+		// DECLARE utag AGGREGATE: usum with multiplier 1, then || '/' || @m: the text of the second argument as received
+		var a int64
+		for _, v := range vs {
+			if v.IsNull() {
+				a += 1000
+			} else {
+				a += v.AsInt()
+			}
+		}
+		return val.Str(fmt.Sprintf("%d/%s", a, mul.S))
 	case "UHASH":
 		// order dependent: a := (a*3 + x*@m) % 1000003, NULL counts as 7
 		m := mul.AsInt()
@@ -865,7 +876,7 @@ func AnalyticCheck(in AnaInput, got []val.Val) AnaResult {
 			readings = append(readings, in.lagReading("ignore_nulls=nearest_non_null_from_offset", parts, n, true))
 			readings = append(readings, in.lagReading("ignore_nulls=offset_th_non_null", parts, n, false))
 		}
-	case "COUNT", "COUNT_STAR", "SUM", "AVG", "MIN", "MAX", "MEDIAN", "USUM", "UHASH":
+	case "COUNT", "COUNT_STAR", "SUM", "AVG", "MIN", "MAX", "MEDIAN", "USUM", "UHASH", "UTAG":
 		exact("", func(q []int, c int) val.Val {
 			f := in.Frame
 			if !hasOrder {
@@ -875,6 +886,9 @@ func AnalyticCheck(in AnaInput, got []val.Val) AnaResult {
 			}
 			lo, hi := frameRange(f, c, len(q))
 			mul := val.Int(1) // the declared DEFAULT of @m
+			if in.Fn == "UTAG" {
+				mul = val.Str("d")
+			}
 			if in.Arg2 != nil {
 				mul = in.Arg2[q[c]]
 			}
